@@ -13,6 +13,7 @@ import (
 	hydrapb "github.com/hydraide/hydraide/sdk/go/hydraidego/v3/hydraidepbgo"
 	"github.com/hydraide/hydraide/app/zzsim/simdisk"
 	"github.com/hydraide/hydraide/app/zzsim/simrt"
+	"github.com/vmihailenco/msgpack/v5"
 	"google.golang.org/grpc/metadata"
 	"google.golang.org/protobuf/proto"
 	"google.golang.org/protobuf/reflect/protoreflect"
@@ -23,7 +24,8 @@ import (
 // Requests for every RPC of the gateway are generated structurally from the
 // protobuf descriptors (each field drawn from valid, boundary and malformed
 // pools: empty and short swamp names, 70 kB and empty keys, nil/empty lists,
-// nil sub-messages, out-of-range enums, extreme numbers) and interleaved with
+// nil sub-messages, out-of-range enums, extreme numbers, body-field paths in valid and
+// broken syntax aimed at stored bodies with scalar, vector, slice-of-maps and map fields) and interleaved with
 // valid traffic. The handlers are found by reflection, so a new RPC is covered
 // automatically.
 
@@ -37,6 +39,7 @@ func init() {
 		Gen: genC26,
 		Run: runC26,
 		Sim: true,
+		MemLimitGB: 12,
 		Assumptions: []string{"handlers are called directly (no gRPC transport): what arrives is what a client can put on the wire; an empty repeated field arrives as nil, as on the wire"},
 		Real:        gwReal,
 		Stub:        gwStub,
@@ -58,6 +61,8 @@ func genC26(seed uint64, tier string) Case {
 	c.Sched = &Sched{Seed: r.next()}
 	return c
 }
+
+var pathPool = []string{"n", "s", "vec", "arr", "arr[*].v", "vec[*]", "arr.#len", "m.x", "missing", "words"}
 
 var strPool = []string{"verif/per/keep", "verif/per/other", "verif/mem/x", "", "a", "a/b", "a/b/c/d", "//", "*/*/*", "verif/per/", "verif//keep", "k0", "k1", "\x00", " "}
 
@@ -111,6 +116,14 @@ func fillMessage(m protoreflect.Message, r *rng, level int64, depth int, mutated
 					default:
 						s = fmt.Sprintf("k%d", r.intn(3))
 					}
+				case strings.Contains(name, "Path"):
+					// body-field paths of filters, patch operations and nested-slice members: fields the stored bodies have
+					// (scalar, numeric array, slice of maps, map), path syntax variants, and broken syntax
+					s = pathPool[r.intn(len(pathPool))]
+					if int64(r.intn(6)) < level {
+						s = []string{"", ".", "..", "[*]", "vec[*][*]", "arr[*]", "#len", "arr.#len.x", "vec.0", "n.n", "[", "arr[", strings.Repeat("a.", 300) + "a"}[r.intn(13)]
+						*mutated = append(*mutated, name+"="+shortKey(s))
+					}
 				default:
 					s = strPool[r.intn(len(strPool))]
 				}
@@ -126,6 +139,17 @@ func fillMessage(m protoreflect.Message, r *rng, level int64, depth int, mutated
 				}
 				if r.chance(1, 4) {
 					return protoreflect.ValueOfBytes([][]byte{{0x00}, {0xC7}, {0xC7, 0x00}, {0xC7, 0x00, 0xC1}}[r.intn(4)]), true
+				}
+				if r.chance(1, 4) {
+					// msgpack headers that announce far more than the few bytes that follow: map32 / array32 / str32 / bin32
+					// with 2^32-1 elements, map16 / array16 with 65535, bare and behind the body marker
+					h := [][]byte{{0xdf, 0xff, 0xff, 0xff, 0xff}, {0xdd, 0xff, 0xff, 0xff, 0xff}, {0xdb, 0xff, 0xff, 0xff, 0xff}, {0xc6, 0xff, 0xff, 0xff, 0xff}, {0xde, 0xff, 0xff}, {0xdc, 0xff, 0xff},
+						{0x81, 0xa1, 'n', 0xdd, 0xff, 0xff, 0xff, 0xff}, {0x81, 0xa1, 'n', 0xdf, 0x7f, 0xff, 0xff, 0xff}}[r.intn(8)]
+					if r.chance(1, 2) {
+						h = append([]byte{0xC7, 0x00}, h...)
+					}
+					*mutated = append(*mutated, fmt.Sprintf("%s=msgpack_header_%x", name, h))
+					return protoreflect.ValueOfBytes(h), true
 				}
 				return protoreflect.ValueOfBytes(genPayload(int64(r.intn(40)), int64(r.intn(99)))), true
 			case protoreflect.BoolKind:
@@ -304,10 +328,15 @@ func runC26(t *testing.T, c Case) (res Result) {
 		}
 		// records with legal but awkward values in the swamps the generated requests address: byte values shorter
 		// than the 2-byte msgpack marker, the bare marker, and a msgpack body
-		for j, b := range [][]byte{{0x00}, {0xC7}, {0xC7, 0x00}, {0xC7, 0x00, 0x81, 0xa1, 'n', 0x01}} {
+		for j, b := range [][]byte{{0x00}, {0xC7}, {0xC7, 0x00}, {0xC7, 0x00, 0x81, 0xa1, 'n', 0x01}, {0xC7, 0x00, 0xdf, 0xff, 0xff, 0xff, 0xff}, {0xC7, 0x00, 0x81, 0xa1, 'n', 0xdd, 0xff, 0xff, 0xff, 0xff}} {
 			for _, sw := range []string{"verif/per/keep", "verif/per/other"} {
 				cl.set(sw, []*hydrapb.KeyValuePair{{Key: fmt.Sprintf("k%d", j), BytesVal: b}}, true, true)
 			}
+		}
+		// and a body with a field of every shape the filters look at: scalar, numeric array (vector), slice of maps, map
+		rich, _ := msgpack.Marshal(map[string]any{"n": int64(1), "s": "a b", "vec": []float64{1, 0, 0, 0}, "arr": []any{map[string]any{"v": int64(1)}, map[string]any{"v": "x"}}, "m": map[string]any{"x": int64(2), "lat": 47.5, "lng": 19.0}, "words": map[string]any{"a": []int64{0}, "b": []int64{1}}})
+		for _, sw := range []string{"verif/per/keep", "verif/per/other", "verif/mem/x"} {
+			cl.set(sw, []*hydrapb.KeyValuePair{{Key: "k9", BytesVal: append([]byte{0xC7, 0x00}, rich...)}}, true, true)
 		}
 		methods := gatewayMethods(srv.gw)
 		for i, op := range c.Ops {
